@@ -834,3 +834,7 @@ def check(run, replay=None):
     missing = [c for c in want_cls if c not in cls]
     if missing:
         run.inconc("UBI class x peak count combinations never generated: %s" % ",".join(missing))
+
+
+# workloads added in seeding rounds 7-10 (DESIGN.md sections 13.9-13.12)
+LEVEL_TEXT = LEVEL_TEXT + ' Later additions: ubi arguments as Fortran-ordered / strided / float32 arrays (refused or refined in place); refinegrains.refine leaves its start matrix alone and repeats.'
